@@ -3,7 +3,7 @@ CONSTANTS
   NWit = 3
   MaxCalls = 1
   PrimaryPersonas = {"honest", "lunatic", "flip2", "nopivot"}
-  WitnessPersonas = {"honest", "lunatic", "silent", "weak3"}
+  WitnessPersonas = {"honest", "lunatic", "silent", "weak3", "relay3"}
   Modes = {"skip", "seq"}
   Roots = {1, 3}
   WithUpdate = TRUE
@@ -19,8 +19,9 @@ CONSTANTS
   Weak_ReplacementHashUnchecked = FALSE
   Weak_PromotedWitnessStays = FALSE
   Weak_PartialTraceOnBenignError = FALSE
+  Weak_DivergentHeaderExaminedOncePerRun = FALSE
 INIT Init
 NEXT Next
-INVARIANTS TrustRootOnly StoreSound WitnessConfirmed IndependentWitness NoConfirmationFromSilence AttackReported AttackStoresNothing StoreMonotone
+INVARIANTS TrustRootOnly StoreSound WitnessConfirmed IndependentWitness NoConfirmationFromSilence AttackReported OrderIndependent AttackerNeverOutvoted AttackStoresNothing StoreMonotone
 VIEW CView
 CHECK_DEADLOCK FALSE
